@@ -4,6 +4,7 @@ import re
 from props.util import *
 from common import REPO, run_harness
 
+no_aux = True   # the clone_from family is part of this property's own cases (judged, not only tied)
 rule = ("for each of the 22 indicators: an original (slot 0) is fed a history, cloned into slot 1 at a chosen point, and an unrelated "
         "instance with other parameters lives in slot 2; then the same continuation is fed to original and clone under many merges "
         "(all merges of two length-L sequences for short L, random long interleavings, with unrelated ops on slot 2 in between) and a "
@@ -138,6 +139,12 @@ def gen_cases(ctx):
             for sl in range(nsl):
                 cases.append(Case("%s_solo%d" % (cid, sl), [new_op(sl, ind, pr)] + streams[sl], dump=(sl,),
                                   meta={"ind": ind, "params": pr[:3], "merge": "solo", "cont": n, "solo_of": cid, "solo_slot": sl}))
+    # seed-independent: Clone::clone_from into an existing instance with a larger / smaller / equal window in another fill state
+    # (source warming up into a full target; into a fresh larger one), judged here by original-vs-copy equality
+    for c_ in aux_clone_cases():
+        c_.cid = "cf_" + c_.cid
+        c_.meta = {"ind": c_.meta["ind"], "params": (c_.meta["p"], 0, 0), "merge": "clonefrom", "cont": 10, "fam": "clonefrom"}
+        cases.append(c_)
     return cases
 
 
@@ -171,6 +178,18 @@ def check_impl(ctx, cases):
                     break
             continue
         if c.meta.get("fam") == "S":
+            continue
+        if c.meta.get("fam") == "clonefrom":
+            # seed-independent clone_from family: after `c 0 1` both instances receive the same inputs until slot 1 is reset
+            ci = c.ops.index(("c", 0, 1))
+            ri = max(i_ for i_, o_ in enumerate(c.ops) if o_ == ("r", 1))
+            a = [(i_, o_) for (i_, o_) in outs_of(c, 0) if i_ > ci]
+            b = [(i_, o_) for (i_, o_) in outs_of(c, 1) if ci < i_ < ri]
+            for k in range(min(len(a), len(b))):
+                if a[k][1] != b[k][1]:
+                    out.append(Violation("%s: after clone_from into an existing instance (%s) the copy and the original disagree at step %d: %s vs %s"
+                                         % (c.meta["ind"], c.cid, k + 1, a[k][1], b[k][1]), case=c))
+                    break
             continue
         a, b, d = outs_of(c, 0), outs_of(c, 1), outs_of(c, 3)
         ci = c.ops.index(("c", 0, 1))
